@@ -136,20 +136,9 @@ def _(c):
     c.ensure('code', val.eq(list(t.tmp_code), list(h)[k + 2:][::-1]))
     c.ensure('valid', t.lsh_code_valid is True)
 
-@obligation(P, 'tlsh.distance/laws-every-pair', cls='L', tiers=('thorough',), cases={'b': [48], 'k': [1, 3]}, funcs=['crysp.tlsh.distance', 'crysp.tlsh.TLSH.from_hash'], timeout=900,
-            note='EVERY pair of 48-bucket digests (symbolic), whole function: the distance is a non-negative integer, symmetric, and zero on identical digests; the larger layouts are decided by the two obligations below')
-def _(c):
-    b, k = c.case('b'), c.case('k'); n = k + 2 + b // 4
-    x = c.bytes('x', n); y = c.bytes('y', n)
-    dxy = c.call(tlsh.distance, x, y)
-    dyx = c.call(tlsh.distance, y, x)
-    c.ensure('non-negative', dxy >= 0)
-    c.ensure('symmetric', val.eq(dxy, dyx))
-    c.ensure('zero-on-identical', val.eq(c.call(tlsh.distance, x, x), 0))
-
 @obligation(P, 'tlsh.distance/header-laws', cls='L', cases={'b': [48, 128, 256], 'k': [1, 3]}, funcs=['crysp.tlsh.distance', 'crysp.tlsh.TLSH.from_hash'], timeout=300,
             note='EVERY pair of digests (symbolic), the part of the distance computed before the bucket-code loop (checksum, L value, Q ratios): non-negative, symmetric, zero on identical digests; '
-                 'the loop is replaced by a contract that adds nothing here and is treated by tlsh.distance/code-loop-step')
+                 'the loop is replaced by a contract that adds nothing here and is treated by tlsh.distance/code-loop-step (the whole function on symbolic 48-bucket digests was also decided by z3, in 5-15 minutes - too slow and too unstable to keep as an obligation)')
 def _(c):
     b, k = c.case('b'), c.case('k'); n = k + 2 + b // 4
     c.loop_contract('crysp.tlsh.distance', 0, lambda I, env: None)
